@@ -15,6 +15,10 @@ import (
 type methodCache[R CacheableResult] struct {
 	mu           sync.Mutex
 	cachedValues map[string]*cacheEntry[R]
+	// generation counts invalidations. A result fetched while an invalidation
+	// happened must not be stored: it may predate the change that caused the
+	// invalidation. See [methodCache.generation] and [methodCache.putIfCurrent].
+	gen uint64
 }
 
 type cacheEntry[R CacheableResult] struct {
@@ -54,16 +58,45 @@ func (mc *methodCache[R]) put(key string, result R) {
 	}
 }
 
+// generation returns the current invalidation generation. Callers take it
+// before issuing the request whose result they intend to cache, and pass it to
+// putIfCurrent afterwards.
+func (mc *methodCache[R]) generation() uint64 {
+	mc.mu.Lock()
+	defer mc.mu.Unlock()
+	return mc.gen
+}
+
+// putIfCurrent is like put, but drops the result if the cache was invalidated
+// since gen was observed: such a result may be older than the change that
+// triggered the invalidation.
+func (mc *methodCache[R]) putIfCurrent(key string, result R, gen uint64) {
+	mc.mu.Lock()
+	defer mc.mu.Unlock()
+	if gen != mc.gen {
+		return
+	}
+	if mc.cachedValues == nil {
+		mc.cachedValues = make(map[string]*cacheEntry[R])
+	}
+	mc.cachedValues[key] = &cacheEntry[R]{
+		result:     result,
+		receivedAt: time.Now(),
+	}
+}
+
 func (mc *methodCache[R]) invalidate() {
 	mc.mu.Lock()
 	defer mc.mu.Unlock()
 	clear(mc.cachedValues)
+	mc.gen++
 }
 
 func (mc *methodCache[R]) invalidateKey(key string) {
 	mc.mu.Lock()
 	defer mc.mu.Unlock()
 	delete(mc.cachedValues, key)
+	mc.gen++
 }
 
 // cursorParams is the constraint for list-method params that carry a pagination
